@@ -889,6 +889,9 @@ class RZILTransformer(Transformer):
         if op_type == BitOperationType.RSHIFT or op_type == BitOperationType.LSHIFT:
             # The result of a shift has the promoted type of the left operand.
             a = self.promotion_cast(a)
+            if b.value_type.group & VTGroup.BOOL:
+                # A truth value as shift amount is the integer 0 or 1.
+                b = self.promotion_cast(b)
         if (a and b) and not (
             op_type == BitOperationType.RSHIFT or op_type == BitOperationType.LSHIFT
         ):
